@@ -78,7 +78,14 @@ impl FeedCfg {
 				}
 			}
 		}
-		let scale_exp = if r.chance(0.5) { 0 } else { r.range(0, 18) as i32 - 9 };
+		// single precision: keep squares and window sums far from f32::MAX (overflow is not a rounding effect)
+		let scale_exp = if r.chance(0.5) {
+			0
+		} else if cfg!(feature = "value_type_f32") {
+			r.range(0, 8) as i32 - 4
+		} else {
+			r.range(0, 18) as i32 - 9
+		};
 		FeedCfg {
 			regimes,
 			scale_exp,
@@ -190,14 +197,14 @@ pub fn values(r: &mut Rng, len: usize, cfg: &FeedCfg, fc: &mut FaultCount) -> Ve
 				bump(fc, "feed:alphabet_ties");
 			}
 			Regime::Spike => {
-				let k = 10f64.powi(r.range(1, 6) as i32);
+				let k = 10f64.powi(r.range(1, if cfg!(feature = "value_type_f32") { 3 } else { 6 }) as i32);
 				let y = if r.chance(0.5) { x * k } else { x / k };
 				emit(&mut out, y, cfg);
 				bump(fc, "feed:spike");
 			}
 			Regime::ScaleJump => {
 				let k = 10f64.powi(r.range(1, 3) as i32);
-				if r.chance(0.5) && x.abs() < 1e12 * scale {
+				if r.chance(0.5) && x.abs() < if cfg!(feature = "value_type_f32") { 1e5 } else { 1e12 } * scale {
 					x *= k;
 				} else {
 					x /= k;
